@@ -23,7 +23,16 @@ var assumptions = []string{
 
 var reproducers = map[string]func(c *fw.Ctx) (bool, string){}
 
-func config(c *fw.Ctx, idx int) *lrun.Config { return defaultConfig() }
+// config: every third program runs with Options.IncludeGoStackTrace (it only adds Go's
+// stack to what the Go caller can print; how a failure travels between coroutines must
+// not depend on it).
+func config(c *fw.Ctx, idx int) *lrun.Config {
+	cfg := defaultConfig()
+	if idx%3 == 1 {
+		cfg.Opts.IncludeGoStackTrace = true
+	}
+	return cfg
+}
 
 func classify(c *fw.Ctx, o *pcommon.Outcome, cs pcommon.Case) {
 	c.Violation("implementation diverges from the reference interpreter: "+o.Diff.String(), cs)
